@@ -1804,6 +1804,10 @@ class Transaction(object):
             if n_sigs_to_insert:
                 _logger.info("Some signatures are replaced with the signatures of the provided keys")
             self.inputs[tid].signatures = [s for s in sig_domain if s != '']
+            if self.inputs[tid].script_type == 'signature':
+                # The unlocking script of a P2PK input is the signature itself and update_scripts() keeps an
+                # existing one: drop the signature made for the previous digest when signing (again)
+                self.inputs[tid].unlocking_script = b''
             self.inputs[tid].update_scripts(hash_type)
 
     def sign_and_update(self, index_n=None):
